@@ -412,6 +412,39 @@ func RefOf(in ssa.Instruction) InstrRef {
 // "ok := true; …; ok = false; …; if !ok" idiom). Returns the first instruction for which visit
 // returned true, or nil.
 func Reach(fn *ssa.Function, start ssa.Instruction, cut EdgeSet, barrier func(ssa.Instruction) bool, visit func(ssa.Instruction) bool) ssa.Instruction {
+	return reachImpl(fn, start, nil, cut, barrier, visit)
+}
+
+// ReachEdge is Reach starting at the target block of edge e (its first instruction included);
+// the truth value that taking e establishes for the branch condition is known on the paths.
+func ReachEdge(fn *ssa.Function, e Edge, cut EdgeSet, barrier func(ssa.Instruction) bool, visit func(ssa.Instruction) bool) ssa.Instruction {
+	return reachImpl(fn, nil, &e, cut, barrier, visit)
+}
+
+// condFact: the (value, truth) established by taking successor si of the If ending block b.
+func condFact(b *ssa.BasicBlock, si int) (ssa.Value, bool, bool) {
+	i := IfOf(b)
+	if i == nil {
+		return nil, false, false
+	}
+	c := i.Cond
+	val := si == 0
+	for {
+		u, ok := c.(*ssa.UnOp)
+		if ok && u.Op == token.NOT {
+			val = !val
+			c = u.X
+			continue
+		}
+		break
+	}
+	if _, isConst := c.(*ssa.Const); isConst {
+		return nil, false, false
+	}
+	return c, val, true
+}
+
+func reachImpl(fn *ssa.Function, start ssa.Instruction, startEdge *Edge, cut EdgeSet, barrier func(ssa.Instruction) bool, visit func(ssa.Instruction) bool) ssa.Instruction {
 	if len(fn.Blocks) == 0 {
 		return nil
 	}
@@ -428,10 +461,19 @@ func Reach(fn *ssa.Function, start ssa.Instruction, cut EdgeSet, barrier func(ss
 	}
 	seenTop := map[key]bool{}
 	var work []item
-	if start == nil {
+	switch {
+	case startEdge != nil:
+		env0 := map[string]constant.Value{}
+		if v, val, ok := condFact(startEdge.From, startEdge.Succ); ok {
+			env0["V"+v.Name()] = constant.MakeBool(val)
+		}
+		e0 := encodeEnv(env0)
+		work = append(work, item{startEdge.To(), 0, startEdge.From, e0})
+		seenTop[key{startEdge.To(), startEdge.From, e0}] = true
+	case start == nil:
 		work = append(work, item{fn.Blocks[0], 0, nil, ""})
 		seenTop[key{fn.Blocks[0], nil, ""}] = true
-	} else {
+	default:
 		r := RefOf(start)
 		work = append(work, item{r.B, r.I + 1, nil, ""})
 	}
@@ -469,6 +511,9 @@ func Reach(fn *ssa.Function, start ssa.Instruction, cut EdgeSet, barrier func(ss
 			if _, ok := in.(*ssa.Panic); ok {
 				stopped = true
 				break
+			}
+			if v, isVal := in.(ssa.Value); isVal && len(env) > 0 {
+				delete(env, "V"+v.Name())
 			}
 			switch x := in.(type) {
 			case *ssa.Store:
@@ -510,7 +555,7 @@ func Reach(fn *ssa.Function, start ssa.Instruction, cut EdgeSet, barrier func(ss
 		}
 		only := -1
 		if it.pred != nil && it.i == 0 {
-			only = threadedSucc(it.b, it.pred)
+			only = threadedSuccEnv(it.b, it.pred, env)
 		}
 		if only < 0 {
 			if i := IfOf(it.b); i != nil {
@@ -520,16 +565,34 @@ func Reach(fn *ssa.Function, start ssa.Instruction, cut EdgeSet, barrier func(ss
 					} else {
 						only = 1
 					}
+				} else if c, _, ok := condFact(it.b, 0); ok {
+					if f, known := env["V"+c.Name()]; known && f.Kind() == constant.Bool {
+						// fact about the stripped condition: which successor makes it that value?
+						_, v0, _ := condFact(it.b, 0)
+						if constant.BoolVal(f) == v0 {
+							only = 0
+						} else {
+							only = 1
+						}
+					}
 				}
 			}
 		}
-		envS := encodeEnv(env)
 		for si, s := range it.b.Succs {
 			if only >= 0 && si != only {
 				continue
 			}
 			if cut != nil && cut[Edge{it.b, si}] {
 				continue
+			}
+			envS := encodeEnv(env)
+			if c, val, ok := condFact(it.b, si); ok && len(it.b.Succs) == 2 {
+				env2 := map[string]constant.Value{}
+				for k, v := range env {
+					env2[k] = v
+				}
+				env2["V"+c.Name()] = constant.MakeBool(val)
+				envS = encodeEnv(env2)
 			}
 			k := key{s, it.b, envS}
 			if !seenTop[k] {
@@ -672,6 +735,49 @@ func decodeEnv(s string) map[string]constant.Value {
 		}
 	}
 	return env
+}
+
+// threadedSuccEnv is threadedSucc that also resolves a phi operand through a known branch fact.
+func threadedSuccEnv(b, pred *ssa.BasicBlock, env map[string]constant.Value) int {
+	if r := threadedSucc(b, pred); r >= 0 {
+		return r
+	}
+	i := IfOf(b)
+	if i == nil {
+		return -1
+	}
+	c := i.Cond
+	neg := false
+	for {
+		u, ok := c.(*ssa.UnOp)
+		if ok && u.Op == token.NOT {
+			neg = !neg
+			c = u.X
+			continue
+		}
+		break
+	}
+	ph, ok := c.(*ssa.Phi)
+	if !ok || ph.Block() != b {
+		return -1
+	}
+	for pi, p := range b.Preds {
+		if p == pred && pi < len(ph.Edges) {
+			f, known := env["V"+ph.Edges[pi].Name()]
+			if !known || f.Kind() != constant.Bool {
+				return -1
+			}
+			val := constant.BoolVal(f)
+			if neg {
+				val = !val
+			}
+			if val {
+				return 0
+			}
+			return 1
+		}
+	}
+	return -1
 }
 
 // threadedSucc: b entered from pred ends in If on a phi of b with a constant bool for pred →
